@@ -10,9 +10,17 @@ def jobs(tier, names=None, prop="C07"):
         c = CPUS[n]
         base = int(c["base"], 16)
         d = {"CPU": '"%s"' % c["cpu"], "DISASM_FN": c["disasm"], "DISASM_HDR": '"%s"' % c["hdr"], "NBYTES": c["nbytes"], "BASE": base, "ORG": base,
-             "MINLEN": c["minlen"], "MAXLEN": c["maxlen"], "FLAGS": c["flags"], "ENDIAN": c["endian"]}
-        js.append(vp.Job("roundtrip.%s" % n, "roundtrip.cpp", d, max_paths=100000 if tier == "quick" else 1000000,
-                         timeout=420 if tier == "quick" else 2400, allow_partial=True, min_completed=20))
+             "MINLEN": c["minlen"], "MAXLEN": c["maxlen"], "FLAGS": c["flags"], "ENDIAN": c["endian"], "NORMBITS": 16 if n in ("msp430", "6502", "65816", "6800", "6809", "68hc08", "8008", "8048", "8051", "z80", "stm8", "avr8", "tms9900", "pdp11", "lc3", "1802") else 32}
+        # the opcode space is partitioned by the high nibble of the opcode-bearing byte so that all cores work on one CPU
+        pb = {"msp430": 1, "avr8": 1, "tms9900": 0, "riscv": 0, "6502": 0, "z80": 0, "8051": 0, "stm8": 0, "68000": 0, "pdp11": 1, "lc3": 0, "6800": 0, "6809": 0, "68hc08": 0}.get(n)
+        if pb is None:
+            js.append(vp.Job("roundtrip.%s" % n, "roundtrip.cpp", d, max_paths=100000 if tier == "quick" else 1000000,
+                             timeout=300 if tier == "quick" else 2400, allow_partial=True, min_completed=5))
+        else:
+            for part in range(16):
+                dd = dict(d, PART_BYTE=pb, PART=part)
+                js.append(vp.Job("roundtrip.%s.p%x" % (n, part), "roundtrip.cpp", dd, max_paths=100000 if tier == "quick" else 1000000,
+                                 timeout=240 if tier == "quick" else 1500, allow_partial=True, min_completed=0))
     return js
 
 def main(tier):
@@ -20,5 +28,5 @@ def main(tier):
         "bytes (symbolic window) -> real disasm_<cpu> -> text (exact symbolic digits) -> real tokenizer, eval_expression, parse_instruction_<cpu>, add_bin (two passes as main() runs them) -> bytes -> disasm again; "
         "Z3 decides on every path that the second disassembly equals the first, that the disassembler consumes exactly what the assembler emitted, and that re-assembling is a fixpoint.",
         ["instruction window of NBYTES symbolic bytes at a concrete address (BASE); PC-relative forms are therefore checked at that address only",
-         "exact string equality of the two disassemblies (the same formatter prints both, so equal values print equally)",
+         "the two disassemblies are compared character by character with digit runs (decimal, 0x hex) compared by value, so that #0 and #0x0000 are the same operand",
          "partial_allowed jobs: first max_paths paths in DFS order"])
